@@ -234,13 +234,29 @@ pub type SubSlot = Arc<Mutex<Option<Subscription<Value>>>>;
 
 /// start one front-end operation as its own task; logs FeStart before and FeDone after
 pub fn start_op(rig: &Rig, h: &str, kind: &str, n: usize, slots: &BTreeMap<String, SubSlot>) -> tokio::task::JoinHandle<()> {
+	start_op_abandonable(rig, h, kind, n, slots).0
+}
+
+/// as `start_op`; the returned sender makes the task drop the operation's future before it has returned (what a timeout or a
+/// `select!` around the call does) - `FeAbandon` is logged in the same poll in which the future is dropped
+pub fn start_op_abandonable(
+	rig: &Rig,
+	h: &str,
+	kind: &str,
+	n: usize,
+	slots: &BTreeMap<String, SubSlot>,
+) -> (tokio::task::JoinHandle<()>, tokio::sync::oneshot::Sender<()>) {
 	let client = rig.client.clone();
 	let tracer = rig.tracer.clone();
 	let hs = h.to_string();
 	let kind = kind.to_string();
 	let slot = slots.get(h).cloned();
 	tracer.ev(json!({"ev": "FeStart", "h": hs}));
-	tokio::spawn(async move {
+	let (ab_tx, mut ab_rx) = tokio::sync::oneshot::channel::<()>();
+	let t2 = tracer.clone();
+	let h2 = hs.clone();
+	let jh = tokio::spawn(async move {
+		let mut fut = Box::pin(async move {
 		let res: Value = match kind.as_str() {
 			"call" => match client.request::<Value, _>("m", ArrayParams::new()).await {
 				// a result that is not the peer's {"tok":..} object (e.g. a bare subscription id): token unknown (-7)
@@ -282,5 +298,20 @@ pub fn start_op(rig: &Rig, h: &str, kind: &str, n: usize, slots: &BTreeMap<Strin
 			}
 		};
 		tracer.ev(json!({"ev": "FeDone", "h": hs, "res": res}));
-	})
+		});
+		let abandoned = tokio::select! {
+			biased;
+			r = &mut ab_rx => r.is_ok(),
+			_ = &mut fut => return,
+		};
+		if abandoned {
+			// no await between the decision and the drop: the log line and the drop are one step for every other task
+			drop(fut);
+			t2.ev(json!({"ev": "FeAbandon", "h": h2}));
+		} else {
+			// the driver let go of the handle without using it
+			fut.await;
+		}
+	});
+	(jh, ab_tx)
 }
